@@ -47,12 +47,66 @@ static const char* const OPN[] = {"addBase", "removeBase", "equals", "toString",
 
 struct Rec { uint64_t t0, t1; uint16_t op; uint16_t i, j; uint32_t arg; uint64_t result; };
 
+// Read-only arena: every shared input (URI structs, their segment nodes, address blocks and text, the shared strings and
+// query lists) is deep-copied into one mapping that is PROT_READ while the threads run. A store into a shared input -- even
+// of the value that is already there, which no snapshot can see -- faults deterministically, whatever the schedule.
+struct Arena {
+    char* base = nullptr; size_t cap = 0, used = 0; bool ro = false;
+    explicit Arena(size_t n) { size_t ps = (size_t)sysconf(_SC_PAGESIZE); cap = (n + ps - 1) & ~(ps - 1); base = (char*)mmap(nullptr, cap, PROT_READ | PROT_WRITE, MAP_PRIVATE | MAP_ANONYMOUS, -1, 0); if (base == MAP_FAILED) { base = nullptr; cap = 0; } }
+    ~Arena() { if (base) munmap(base, cap); }
+    Arena(const Arena&) = delete;
+    void* alloc(size_t n, size_t align = 16) { size_t o = (used + align - 1) & ~(align - 1); if (!base || o + n > cap) return nullptr; used = o + n; return base + o; }
+    bool protect(bool on) { if (!base) return false; ro = on; return mprotect(base, cap, on ? PROT_READ : (PROT_READ | PROT_WRITE)) == 0; }
+    bool contains(const void* p) const { return base && (const char*)p >= base && (const char*)p < base + cap; }
+};
+static Arena* g_arena = nullptr;      // for crash attribution: a fault inside the arena is a store into a shared read-only input
+static const char* explain_fault(const void* a) {
+    if (g_arena && g_arena->contains(a)) return "[store-into-shared-read-only-input]";
+    for (auto& s : g_libsegs) if ((const char*)a >= s.lo && (const char*)a < s.lo + s.len) return "[store-into-library-static-data]";
+    return nullptr;
+}
+template <class X> const typename X::Char* arena_text(Arena& A, const typename X::Char* first, const typename X::Char* after, bool terminate = false) {
+    size_t n = (size_t)(after - first); typename X::Char* d = (typename X::Char*)A.alloc((n + (terminate ? 1 : 0) + 1) * sizeof(typename X::Char), sizeof(typename X::Char));
+    if (!d) return nullptr; if (n) memcpy(d, first, n * sizeof(typename X::Char)); d[n] = 0; return d;
+}
+template <class X> typename X::Uri* arena_clone(Arena& A, const typename X::Uri& u) {
+    typedef typename X::Uri Uri; typedef typename X::Seg Seg; typedef typename X::Range Range;
+    Uri* d = (Uri*)A.alloc(sizeof(Uri)); if (!d) return nullptr; memcpy(d, &u, sizeof(Uri));
+    bool ok = true;
+    auto cp = [&](const Range& r) { Range o; o.first = o.afterLast = nullptr; if (r.first) { size_t n = (size_t)(r.afterLast - r.first); o.first = arena_text<X>(A, r.first, r.afterLast); if (!o.first) ok = false; else o.afterLast = o.first + n; } return o; };
+    d->scheme = cp(u.scheme); d->userInfo = cp(u.userInfo); d->hostText = cp(u.hostText); d->portText = cp(u.portText); d->query = cp(u.query); d->fragment = cp(u.fragment);
+    if (u.hostData.ipFuture.first) { if (u.hostData.ipFuture.first == u.hostText.first && u.hostData.ipFuture.afterLast == u.hostText.afterLast) d->hostData.ipFuture = d->hostText; else d->hostData.ipFuture = cp(u.hostData.ipFuture); }
+    if (u.hostData.ip4) { d->hostData.ip4 = (UriIp4*)A.alloc(sizeof(UriIp4)); if (d->hostData.ip4) memcpy(d->hostData.ip4, u.hostData.ip4, sizeof(UriIp4)); else ok = false; }
+    if (u.hostData.ip6) { d->hostData.ip6 = (UriIp6*)A.alloc(sizeof(UriIp6)); if (d->hostData.ip6) memcpy(d->hostData.ip6, u.hostData.ip6, sizeof(UriIp6)); else ok = false; }
+    d->pathHead = d->pathTail = nullptr; Seg* prev = nullptr;
+    for (const Seg* s = u.pathHead; s && ok; s = s->next) { Seg* n = (Seg*)A.alloc(sizeof(Seg)); if (!n) { ok = false; break; } memcpy(n, s, sizeof(Seg)); n->text = cp(s->text); n->next = nullptr; if (prev) prev->next = n; else d->pathHead = n; prev = n; d->pathTail = n; }
+    return ok ? d : nullptr;
+}
+
 template <class X> struct Shared {
     typedef typename X::Char Char; typedef typename X::QList QList;
     std::vector<std::unique_ptr<UriBox<X>>> uris; std::vector<Str> snaps;
+    std::unique_ptr<Arena> arena; std::vector<typename X::Uri*> roUris; std::vector<const Char*> roText; std::vector<size_t> roTextLen;
+    std::vector<const Char*> roStrings; std::vector<size_t> roStringLen; std::vector<QList*> roLists;
+    // all host kinds and component shapes are always present in the shared pool, whatever the random part produces
+    static const char* fixed(int i) { static const char* F[] = {"http://[v7.Host]:8/P/%7e?%41#%61", "HTTP://u%41@EX%41MPLE.com:80/a/./b/../c", "s://[::FFFF:1.2.3.4]/x/y", "s://1.2.3.4/p/q?k=v", "../A/%2e/b:c?q", "a:b/c/../d"}; return F[i]; }
+    bool freeze() {
+        arena.reset(new Arena((size_t)4 << 20)); Arena& A = *arena; bool ok = true;
+        for (auto& b : uris) { typename X::Uri* d = arena_clone<X>(A, b->u); const Char* t = b->text ? arena_text<X>(A, b->text, b->text + b->len) : nullptr; if (!d) ok = false; roUris.push_back(d); roText.push_back(t); roTextLen.push_back(b->len); }
+        for (auto& w : strings) { const Char* t = arena_text<X>(A, w.data(), w.data() + w.size(), true); if (!t) ok = false; roStrings.push_back(t); roStringLen.push_back(w.size()); }
+        for (auto& L : lists) { QList* nodes = (QList*)A.alloc(sizeof(QList) * L.size()); if (!nodes) { ok = false; roLists.push_back(nullptr); continue; }
+            for (size_t k = 0; k < L.size(); k++) { nodes[k].key = arena_text<X>(A, L[k].key, L[k].key + xstrlen<X>(L[k].key), true); nodes[k].value = L[k].value ? arena_text<X>(A, L[k].value, L[k].value + xstrlen<X>(L[k].value), true) : nullptr; nodes[k].next = k + 1 < L.size() ? &nodes[k + 1] : nullptr; if (!nodes[k].key) ok = false; }
+            roLists.push_back(nodes); }
+        if (!ok) return false;
+        for (size_t i = 0; i < roUris.size(); i++) snaps[i] = deep_snapshot<X>(*roUris[i]);
+        g_arena = arena.get(); crash_explain = explain_fault;
+        return A.protect(true);
+    }
+    void thaw() { if (arena) arena->protect(false); g_arena = nullptr; }
     std::vector<typename X::S> strings;                     // NUL-terminated shared strings (queries, filenames, text to escape)
     std::vector<std::vector<QList>> lists; std::vector<std::vector<typename X::S>> listText;
     void build(Rng& r) {
+        for (int i = 0; i < 12; i++) { std::unique_ptr<UriBox<X>> b(new UriBox<X>()); if (b->parse(fixed(i % 6)) != URI_SUCCESS) continue; if (i >= 6) b->make_owner(); snaps.push_back(Str()); uris.push_back(std::move(b)); }
         for (int i = 0; i < 24; i++) {
             std::unique_ptr<UriBox<X>> b(new UriBox<X>()); Str s;
             for (int t = 0; t < 40; t++) { UriGenOpts o; o.dotHeavy = r.coin(); o.maxSegs = 6; o.longSeg = false; s = (i % 3 == 0) ? gen_abs_base(r) : gen_uri(r, o); if (i % 3 == 1) { o.scheme = 1; s = gen_uri(r, o); } size_t e; if (dfa_uriref(s, &e)) break; s = "a://h/p/q"; }
@@ -73,10 +127,11 @@ template <class X> struct Shared {
 
 // one call; returns a hash of everything the call returned
 template <class X> uint64_t do_call(Shared<X>& sh, int op, unsigned i, unsigned j, unsigned arg, UriMemoryManager* mm) {
-    typedef typename X::Char Char; typedef typename X::Uri Uri;
+    typedef typename X::Char Char; typedef typename X::Uri Uri; typedef typename X::QList QListT;
     Str out;
-    auto U = [&](unsigned k) -> Uri& { return sh.uris[k % sh.uris.size()]->u; };
-    auto S = [&](unsigned k) -> const typename X::S& { return sh.strings[k % sh.strings.size()]; };
+    struct SV { const Char* p; size_t n; const Char* data() const { return p; } const Char* c_str() const { return p; } size_t size() const { return n; } };
+    auto U = [&](unsigned k) -> const Uri& { return *sh.roUris[k % sh.roUris.size()]; };
+    auto S = [&](unsigned k) -> SV { size_t q = k % sh.roStrings.size(); return SV{sh.roStrings[q], sh.roStringLen[q]}; };
     auto text_of = [&](const Uri& u) { int need = -1; if (X::ToStringCharsRequired(&u, &need) != URI_SUCCESS || need < 0) return Str("<err>"); std::vector<Char> b((size_t)need + 1); int w = 0; if (X::ToString(b.data(), &u, need + 1, &w) != URI_SUCCESS) return Str("<err>"); return narrow<X>(b.data(), b.data() + need); };
     switch (op) {
     case O_ADDBASE: { Uri d; int rc = mm ? X::AddBaseUriExMm(&d, &U(i), &U(j), (UriResolutionOptions)(arg & 1), mm) : X::AddBaseUriEx(&d, &U(i), &U(j), (UriResolutionOptions)(arg & 1)); out = fmt("%d:", rc); if (rc == 0) { out += text_of(d); if (mm) X::FreeUriMembersMm(&d, mm); else X::FreeUriMembers(&d); } break; }
@@ -85,21 +140,21 @@ template <class X> uint64_t do_call(Shared<X>& sh, int op, unsigned i, unsigned 
     case O_TOSTRING: out = text_of(U(i)); break;
     case O_MASKREQ: { unsigned m2 = 77; int rc = X::NormalizeSyntaxMaskRequiredEx(&U(i), &m2); out = fmt("%u/%u/%d", X::NormalizeSyntaxMaskRequired(&U(i)), m2, rc); break; }
     case O_PARSE_NORM: case O_PARSE_OWNER: {
-        UriBox<X>& src = *sh.uris[i % sh.uris.size()]; if (!src.text) { out = "<no text>"; break; }
-        Uri u; const Char* ep; int rc = mm ? X::ParseSingleUriExMm(&u, src.text, src.text + src.len, &ep, mm) : X::ParseSingleUriEx(&u, src.text, src.text + src.len, &ep);
+        size_t q = i % sh.roText.size(); const Char* stext = sh.roText[q]; size_t slen = sh.roTextLen[q]; if (!stext) { out = "<no text>"; break; }
+        Uri u; const Char* ep; int rc = mm ? X::ParseSingleUriExMm(&u, stext, stext + slen, &ep, mm) : X::ParseSingleUriEx(&u, stext, stext + slen, &ep);
         out = fmt("%d:", rc); if (rc != 0) break;
         int r2 = op == O_PARSE_NORM ? (mm ? X::NormalizeSyntaxExMm(&u, arg & 63, mm) : X::NormalizeSyntaxEx(&u, arg & 63)) : (mm ? X::MakeOwnerMm(&u, mm) : X::MakeOwner(&u));
         out += fmt("%d:", r2) + text_of(u);
         if (mm) X::FreeUriMembersMm(&u, mm); else X::FreeUriMembers(&u);
         break; }
-    case O_COMPOSE: { auto& L = sh.lists[i % sh.lists.size()]; Char* o = nullptr; int rc = mm ? X::ComposeQueryMallocExMm(&o, L.data(), arg & 1, (arg >> 1) & 1, mm) : X::ComposeQueryMallocEx(&o, L.data(), arg & 1, (arg >> 1) & 1); out = fmt("%d:", rc); if (rc == 0) { out += narrow<X>(o, o + xstrlen<X>(o)); if (mm) mm->free(mm, o); else free(o); }
+    case O_COMPOSE: { struct LV { const QListT* p; const QListT* data() const { return p; } }; LV L{sh.roLists[i % sh.roLists.size()]}; Char* o = nullptr; int rc = mm ? X::ComposeQueryMallocExMm(&o, L.data(), arg & 1, (arg >> 1) & 1, mm) : X::ComposeQueryMallocEx(&o, L.data(), arg & 1, (arg >> 1) & 1); out = fmt("%d:", rc); if (rc == 0) { out += narrow<X>(o, o + xstrlen<X>(o)); if (mm) mm->free(mm, o); else free(o); }
         int req = -1; X::ComposeQueryCharsRequiredEx(L.data(), &req, arg & 1, (arg >> 1) & 1); out += fmt("/%d", req); break; }
-    case O_DISSECT: { const typename X::S& q = S(i); typename X::QList* l = nullptr; int cnt = -1; int rc = mm ? X::DissectQueryMallocExMm(&l, &cnt, q.data(), q.data() + q.size(), arg & 1, (UriBreakConversion)((arg >> 1) & 3), mm) : X::DissectQueryMallocEx(&l, &cnt, q.data(), q.data() + q.size(), arg & 1, (UriBreakConversion)((arg >> 1) & 3));
+    case O_DISSECT: { SV q = S(i); typename X::QList* l = nullptr; int cnt = -1; int rc = mm ? X::DissectQueryMallocExMm(&l, &cnt, q.data(), q.data() + q.size(), arg & 1, (UriBreakConversion)((arg >> 1) & 3), mm) : X::DissectQueryMallocEx(&l, &cnt, q.data(), q.data() + q.size(), arg & 1, (UriBreakConversion)((arg >> 1) & 3));
         out = fmt("%d:%d:", rc, cnt); if (rc == 0) { for (auto* p = l; p; p = p->next) { out += narrow<X>(p->key, p->key + xstrlen<X>(p->key)); out += '='; if (p->value) out += narrow<X>(p->value, p->value + xstrlen<X>(p->value)); out += '&'; } if (mm) X::FreeQueryListMm(l, mm); else X::FreeQueryList(l); } break; }
-    case O_ESCAPE: { const typename X::S& s = S(i); std::vector<Char> o(6 * s.size() + 1); Char* e = X::EscapeEx(s.data(), s.data() + s.size(), o.data(), arg & 1, (arg >> 1) & 1); out = narrow<X>(o.data(), e); const Char* e2 = X::UnescapeInPlaceEx(o.data(), arg & 1, (UriBreakConversion)((arg >> 2) & 3)); out += '|'; out += narrow<X>(o.data(), e2); break; }
-    case O_FILE: { const typename X::S& s = S(i); std::vector<Char> o(8 + 3 * s.size() + 1), b(8 + 3 * s.size() + 4); int rc = (arg & 1) ? X::UnixFilenameToUriString(s.c_str(), o.data()) : X::WindowsFilenameToUriString(s.c_str(), o.data()); int r2 = (arg & 1) ? X::UriStringToUnixFilename(o.data(), b.data()) : X::UriStringToWindowsFilename(o.data(), b.data());
+    case O_ESCAPE: { SV s = S(i); std::vector<Char> o(6 * s.size() + 1); Char* e = X::EscapeEx(s.data(), s.data() + s.size(), o.data(), arg & 1, (arg >> 1) & 1); out = narrow<X>(o.data(), e); const Char* e2 = X::UnescapeInPlaceEx(o.data(), arg & 1, (UriBreakConversion)((arg >> 2) & 3)); out += '|'; out += narrow<X>(o.data(), e2); break; }
+    case O_FILE: { SV s = S(i); std::vector<Char> o(8 + 3 * s.size() + 1), b(8 + 3 * s.size() + 4); int rc = (arg & 1) ? X::UnixFilenameToUriString(s.c_str(), o.data()) : X::WindowsFilenameToUriString(s.c_str(), o.data()); int r2 = (arg & 1) ? X::UriStringToUnixFilename(o.data(), b.data()) : X::UriStringToWindowsFilename(o.data(), b.data());
         out = fmt("%d:%d:", rc, r2) + narrow<X>(o.data(), o.data() + xstrlen<X>(o.data())) + "|" + narrow<X>(b.data(), b.data() + xstrlen<X>(b.data())); break; }
-    default: { const typename X::S& s = S(i); unsigned char oct[4] = {0, 0, 0, 0}; int rc = X::ParseIpFourAddress(oct, s.data(), s.data() + s.size()); out = fmt("%d:%u.%u.%u.%u", rc, oct[0], oct[1], oct[2], oct[3]); break; }
+    default: { SV s = S(i); unsigned char oct[4] = {0, 0, 0, 0}; int rc = X::ParseIpFourAddress(oct, s.data(), s.data() + s.size()); out = fmt("%d:%u.%u.%u.%u", rc, oct[0], oct[1], oct[2], oct[3]); break; }
     }
     return hash_str(out);
 }
@@ -130,6 +185,8 @@ template <class X> void round(Ctx& c, uint64_t idx) {
     int iters = (int)c.param_int("iters", 30000) / T * 2;
     Shared<X> sh; sh.build(r);
     if (sh.uris.size() < 6) { c.count("round_skipped"); return; }
+    if (!sh.freeze()) { c.count("shared_input_arena_unavailable"); sh.thaw(); return; }
+    c.count("shared_input_bytes_read_only", sh.arena->used);
     bool prot = false;
     if (c.build == "so") { prot = protect_library_data(true); if (!prot) c.count("library_data_protection_unavailable"); else c.count("library_writable_bytes_protected", [&] { size_t n = 0; for (auto& s : g_libsegs) n += s.len; return n; }()); }
     std::atomic<int> go(0);
@@ -144,6 +201,7 @@ template <class X> void round(Ctx& c, uint64_t idx) {
     go.store(1);
     for (int t = 0; t < T; t++) pthread_join(th[(size_t)t], nullptr);
     if (prot) protect_library_data(false);
+    sh.thaw();
     // (1) per-call results equal to single-thread results
     std::map<uint64_t, uint64_t> expect; Ledger led; uint64_t mism = 0;
     for (auto& a : args) {
@@ -158,7 +216,7 @@ template <class X> void round(Ctx& c, uint64_t idx) {
         }
     }
     // (2) shared inputs unchanged
-    for (size_t i = 0; i < sh.uris.size(); i++) if (deep_snapshot<X>(sh.uris[i]->u) != sh.snaps[i]) c.violation("C20", fmt("threads/%s/shared-input-modified", X::tag()), fmt("shared uri %zu (\"%s\")", i, esc(sh.uris[i]->srcText).c_str()));
+    for (size_t i = 0; i < sh.roUris.size(); i++) if (deep_snapshot<X>(*sh.roUris[i]) != sh.snaps[i]) c.violation("C20", fmt("threads/%s/shared-input-modified", X::tag()), fmt("shared uri %zu (\"%s\")", i, esc(sh.uris[i]->srcText).c_str()));
     // (3) which interleavings were observed: overlapping call pairs on the same shared object
     struct Iv { uint64_t t0, t1; uint16_t op; int tid; };
     std::map<unsigned, std::vector<Iv>> byObj;
